@@ -216,3 +216,176 @@ Proof.
     unfold ascii in H. rewrite Forall_forall in H. specialize (H c Hc). cbn beta in H. lia. }
   rewrite E. apply utf8_decode_ascii. exact H.
 Qed.
+
+(* ---------- the URL of the redirect ---------- *)
+
+Ltac split_raises H :=
+  repeat (cbv beta iota in H;
+          match type of H with
+          | context [match ?x with _ => _ end] =>
+              lazymatch x with
+              | context [match _ with _ => _ end] => fail
+              | _ => destruct x; try discriminate H
+              end
+          end).
+
+Lemma urlsplit_raises u e : C18.Model.urlsplit u = C18.Model.Raise e -> e = C18.Model.ValueError.
+Proof.
+  unfold C18.Model.urlsplit, C18.Model.bind. intro H. split_raises H.
+  all: cbv beta iota in H; try discriminate H; try (injection H as <-; reflexivity).
+Qed.
+
+Lemma mk_url_raises u e : C18.Model.mk_url u = C18.Model.Raise e -> e = C18.Model.ValueError.
+Proof.
+  unfold C18.Model.mk_url. destruct (C18.Model.urlsplit u) as [c|e'] eqn:E; cbn [C18.Model.bind]; [discriminate|].
+  intro H. injection H as <-. exact (urlsplit_raises _ _ E).
+Qed.
+
+Lemma build_url_raises sch pth qs server host e :
+  C18.Model.default_port sch <> None -> C18.Model.build_url sch pth qs server host = C18.Model.Raise e -> False.
+Proof.
+  unfold C18.Model.build_url, C18.Model.bind. intros Hd H.
+  destruct host; [discriminate H|]. destruct server as [[h port]|]; [|discriminate H].
+  destruct (C18.Model.default_port sch); [|apply Hd; reflexivity].
+  destruct port; [|discriminate H]. destruct (N.eqb _ _); discriminate H.
+Qed.
+
+Lemma scope_url_raises r e :
+  C18.Model.default_port (C18.Model.r_scheme r) <> None ->
+  C18.Model.scope_url r = C18.Model.Raise e -> e = C18.Model.ValueError.
+Proof.
+  intros Hd H. unfold C18.Model.scope_url in H.
+  destruct (C18.Model.build_url _ _ _ _ _) as [u|e'] eqn:Eb; cbn [C18.Model.bind] in H.
+  - exact (mk_url_raises _ _ H).
+  - exfalso. exact (build_url_raises _ _ _ _ _ _ Hd Eb).
+Qed.
+
+Lemma replace_slash_raises u e :
+  C18.Model.replace u (slash_kwargs u) = C18.Model.Raise e -> e = C18.Model.ValueError.
+Proof.
+  unfold C18.Model.replace, C18.Model.new_netloc, slash_kwargs.
+  cbn [C18.Model.k_username C18.Model.k_password C18.Model.k_hostname C18.Model.k_port C18.Model.is_some orb C18.Model.bind].
+  apply mk_url_raises.
+Qed.
+
+Lemma with_query_raises query build e :
+  (forall q e', build q = C18.Model.Raise e' -> e' = C18.Model.ValueError) ->
+  with_query query build = C18.Model.Raise e -> e = C18.Model.ValueError.
+Proof.
+  intros Hb. unfold with_query. destruct (utf8_decode query) as [q|]; [apply Hb|].
+  destruct (build []) as [u|e'] eqn:E; cbn [C18.Model.bind]; intro H.
+  - injection H as <-. reflexivity.
+  - injection H as <-. exact (Hb _ _ E).
+Qed.
+
+Lemma redirect_answered render u :
+  (forall e, u = C18.Model.Raise e -> e = C18.Model.ValueError) ->
+  (forall loc, exists x, render (RRedirect (bare 307) loc) = Some x) ->
+  answered (redirect_answer render u).
+Proof.
+  intros Hu Hr. unfold redirect_answer. destruct u as [u0|e]; cbn [C18.Model.bind].
+  - destruct (C18.Model.replace u0 (slash_kwargs u0)) as [u'|e] eqn:E.
+    + destruct (Hr (iri_to_uri (C18.Model.ustr u'))) as [[[st hs] body] Hx]. rewrite Hx. exact I.
+    + rewrite (replace_slash_raises _ _ E). exact I.
+  - rewrite (Hu e eq_refl). exact I.
+Qed.
+
+(* URL(environ=...) = URL(scope=...) for a path the gateway can present alike *)
+Lemma url_equiv (rq : areq) (s : state) (p : bytes) :
+  good_names (aq_request rq) -> distinct_names (aq_request rq) ->
+  C09.Model.path (s_req s) = Some p -> ascii (C09.Proofs.full (s_req s)) ->
+  wsgi_url rq s = asgi_url rq s p.
+Proof.
+  intros Hn Hd Hp Ha. unfold wsgi_url, asgi_url. unfold C09.Proofs.full in Ha.
+  rewrite (redecode_ascii _ Ha), Hp. cbn [C09.Model.get].
+  rewrite (host_equiv_first _ Hn Hd).
+  (* the two constructors pass the same arguments to _build_url: C18 wsgi_asgi_same *)
+  set (host := hget (lit "host") (scope_headers (aq_request rq))).
+  set (root := C09.Model.get (C09.Model.root (s_req s))).
+  assert (E : forall q,
+             match C18.Model.environ_url (url_request rq host [] (root ++ p) q) with
+             | Some x => x
+             | None => C18.Model.Raise C18.Model.KeyError
+             end = C18.Model.scope_url (url_request rq host root p q)).
+  { intro q. destruct (C18.Model.environ_url (url_request rq host [] (root ++ p) q)) as [x|] eqn:E.
+    - rewrite (C18.Properties.wsgi_asgi_same _ _ E). reflexivity.
+    - discriminate E. }
+  clear -E. unfold with_query. destruct (utf8_decode _); cbv beta; rewrite E; reflexivity.
+Qed.
+
+Lemma asgi_url_raises (rq : areq) (s : state) (p : bytes) e :
+  known_scheme rq -> asgi_url rq s p = C18.Model.Raise e -> e = C18.Model.ValueError.
+Proof.
+  intros Hk. unfold asgi_url. apply with_query_raises. intros q e'. apply scope_url_raises. exact Hk.
+Qed.
+
+(* ---------- the responses ---------- *)
+
+Lemma default_chunk_pos : 1 <= default_chunk.
+Proof. unfold default_chunk. apply (Nat.mul_pos_pos 4096 64); apply Nat.lt_0_succ. Qed.
+
+(* FileResponse on both interfaces: the status and headers C02's model computes, the body C02's
+   theorems name (wsgi_body_exact, asgi_body_exact) *)
+Lemma file_exact (fr : file_req) : 1 <= fr_chunk fr ->
+  wsgi_response (RFile fr) = Some (w_status (wsgi_file fr), w_headers (wsgi_file fr), expected_body fr) /\
+  asgi_response (RFile fr) = Some (w_status (wsgi_file fr), w_headers (wsgi_file fr), expected_body fr).
+Proof.
+  intros Hc. unfold wsgi_response, asgi_response; cbn [wsgi_full asgi_full fst].
+  destruct (C02.Properties.asgi_body_exact false fr Hc) as (st & hs & Heq & Hst & Hhs & Hb & _).
+  rewrite Heq. unfold asgi_rest in *. subst st hs. split.
+  - f_equal. f_equal. rewrite <- (C02.Properties.wsgi_body_exact fr Hc). unfold C02.Model.wsgi_body.
+    apply yields_concat.
+  - rewrite Hb. reflexivity.
+Qed.
+
+Lemma not_modified_iface e k id inm ims :
+  not_modified e k C14.Model.Wsgi id inm ims = not_modified e k C14.Model.Asgi id inm ims.
+Proof. unfold not_modified, C14.Model.serve. destruct k; reflexivity. Qed.
+
+(* C07: with a well-formed directory the decision never raises *)
+Lemma no_crash k fs cwd dir path : C07.Model.wf_dir dir = true ->
+  fst (C07.Model.app_call k fs cwd dir path) <> C07.Model.Crash.
+Proof.
+  intros Hwf E. destruct k; cbn [C07.Model.app_call] in E.
+  - destruct (C07.Properties.not_found_otherwise_files fs cwd dir path Hwf) as [H|(t & id & _ & _ & H)];
+      rewrite H in E; discriminate E.
+  - pose proof (C07.Properties.not_found_otherwise_pages fs cwd dir path Hwf) as H. cbv zeta in H.
+    destruct H as [H|[(p & id & H)|(H & _)]]; rewrite H in E; discriminate E.
+Qed.
+
+(* ---------- static_equiv ---------- *)
+
+Theorem static_equiv_proof (k : C07.Model.kind) (c : scfg) (e : senv) (rq : areq) (s : state) :
+  C07.Model.wf_dir (sc_dir c) = true ->
+  good_names (aq_request rq) -> distinct_names (aq_request rq) -> known_scheme rq ->
+  C09.Model.lifespan (s_req s) = false -> (exists p, C09.Model.path (s_req s) = Some p) ->
+  ascii (C09.Proofs.full (s_req s)) ->
+  static_wsgi k c e rq s = static_asgi k c e rq s /\ answered (static_asgi k c e rq s).
+Proof.
+  intros Hwf Hn Hd Hk Hl [p Hp] Ha.
+  unfold static_wsgi, static_asgi. rewrite Hl, Hp, (cond_equiv rq Hn), (range_equiv rq Hn). cbn [C09.Model.get].
+  destruct (asgi_cond rq) as [inm ims]. destruct (asgi_range rq) as [rg ifr].
+  unfold C07.Model.wsgi_call, C07.Model.asgi_call.
+  pose proof (no_crash k (se_fs e) (se_cwd e) (sc_dir c) p Hwf) as Hnc.
+  destruct (fst (C07.Model.app_call k (se_fs e) (se_cwd e) (sc_dir c) p)) as [fp id|loc| |].
+  - (* a regular file: 304 or FileResponse *)
+    rewrite (not_modified_iface e k id inm ims).
+    destruct (not_modified e k C14.Model.Asgi id inm ims).
+    + destruct (response_equiv_proof (r304 c) I) as (st & hw & ha & body & Hw & Has & Hh).
+      rewrite Hw, Has. change (ha = hw) in Hh. subst ha. split; [reflexivity|exact I].
+    + set (fr := file_req_of e (is_head rq) rg ifr fp id).
+      destruct (file_exact fr default_chunk_pos) as [Hw Has]. rewrite Hw, Has. split; [reflexivity|exact I].
+  - (* Pages: the slash redirect *)
+    rewrite (url_equiv rq s p Hn Hd Hp Ha). split.
+    + unfold redirect_answer.
+      destruct (C18.Model.bind (asgi_url rq s p) (fun u0 => C18.Model.replace u0 (slash_kwargs u0))) as [u'|[]];
+        [|reflexivity|reflexivity|reflexivity].
+      destruct (response_equiv_proof (RRedirect (bare 307) (iri_to_uri (C18.Model.ustr u'))) I)
+        as (st & hw & ha & body & Hw & Has & Hh).
+      rewrite Hw, Has. change (ha = hw) in Hh. subst ha. reflexivity.
+    + apply redirect_answered.
+      * intros e0. apply asgi_url_raises. exact Hk.
+      * intro loc0. eexists. reflexivity.
+  - split; [reflexivity|exact I].
+  - exfalso. apply Hnc. reflexivity.
+Qed.
